@@ -3,7 +3,7 @@
 # Tries a seeded change without touching /repo: a scratch worktree (/var/tmp/wt-seed) and a scratch
 # copy of /verif/sim bound to it (/var/tmp/seedtest) are used; prints the violation keys of PROP.
 d=$1; P=$2; N=${3:-600}; W=${4:-6}
-cd /var/tmp/wt-seed && git checkout -q -- . && git apply $d/patch.diff || { echo "PATCH DOES NOT APPLY"; exit 3; }
+cd /var/tmp/wt-seed && git checkout -q -- . && git checkout -q --detach main && git apply $d/patch.diff || { echo "PATCH DOES NOT APPLY"; exit 3; }
 rsync -a --delete --exclude reposrc --exclude .cargo /verif/sim/ /var/tmp/seedtest/sim/
 cd /var/tmp/seedtest/sim && cargo build 2>&1 | grep -E "^error" -A8
 for w in $(seq 0 $((W-1))); do
